@@ -207,6 +207,23 @@ where
                 }
             }
         }
+        // the point A shifted by a point of order 3 outside G1: another octet string for "the same" signature
+        for sort in [0u8, 0x20] {
+            if let Some(a2) = crate::gen::with_small_order_component(&sb[..48], sort) {
+                let mut fb = sb.to_vec();
+                fb[..48].copy_from_slice(&a2);
+                let d = dec(h, "sig", &fb);
+                let did = h.last();
+                h.stat("C02.small_order_A");
+                h.expect(!d.is_ok(), "C02.small_order_decode", "signature decoder accepted a point A outside the prime-order group", &[did]);
+                if d.is_ok() {
+                    if let Ok(sg) = BBSplusSignature::from_bytes(&fb.clone().try_into().unwrap()) {
+                        let v = verify::<CS>(h, &pk, &sg, hdr.as_deref(), Some(&msgs));
+                        h.expect(!v.is_ok(), "C02.small_order_verifies", "a signature whose A carries a small-order component verifies", &[did, h.last()]);
+                    }
+                }
+            }
+        }
         // cross interface: a plain signature presented to the blind verifier and vice versa
         let vb = verifyblind::<CS>(h, &pk, &sig, hdr.as_deref(), Some(&msgs), None, None);
         h.expect(!vb.is_ok(), "C02.cross_iface", "plain signature verifies through the blind interface", &[h.last()]);
